@@ -25,6 +25,7 @@ import (
 	"github.com/refraction-networking/conjure/internal/conjurepath"
 	"github.com/refraction-networking/conjure/pkg/core"
 	"github.com/refraction-networking/conjure/pkg/core/interfaces"
+	"github.com/refraction-networking/conjure/pkg/phantoms"
 	cj "github.com/refraction-networking/conjure/pkg/station/lib"
 	"github.com/refraction-networking/conjure/pkg/station/log"
 	"github.com/refraction-networking/conjure/pkg/transports"
@@ -107,6 +108,47 @@ type vWorld struct {
 	// the same few bytes): such cases are matched by exact content and accounted for per distinct content
 	wantSeen    map[string]int // cases of this world carrying that (short) data
 	wantMatched map[string]int // ... of which the station matched
+}
+
+// vClassifySecret derives the named secret of a world.  The station selects a phantom from the secret BEFORE the registrar's
+// pinned address is applied, and that selection fails for secrets whose weighted choice lands on a subnet set without
+// networks of the requested family; such secrets are skipped (salt k) - for every VERIF_SEED alike.
+var vClassifySecretCache sync.Map
+
+// noRand: the secret's own IPv4 phantom must lie in a subnet WITHOUT port randomisation (a registration without transport
+// parameters can only be built there: with randomisation the destination port is derived from the parameters).
+func vClassifySecret(name string, noRand bool) []byte {
+	if v, ok := vClassifySecretCache.Load(name); ok {
+		return v.([]byte)
+	}
+	sel, err := phantoms.NewPhantomIPSelector()
+	var out []byte
+	for k := 0; k < 200; k++ {
+		cand := vSecret(name)
+		if k > 0 {
+			cand = vSecret(fmt.Sprintf("%s#%d", name, k))
+		}
+		if err != nil || sel == nil {
+			out = cand
+			break
+		}
+		keys, kerr := core.GenSharedKeys(uint(core.CurrentClientLibraryVersion()), cand, pb.TransportType_Min)
+		if kerr != nil {
+			continue
+		}
+		p4, e4 := sel.Select(keys.ConjureSeed, 957, uint(core.CurrentClientLibraryVersion()), false)
+		_, e6 := sel.Select(keys.ConjureSeed, 957, uint(core.CurrentClientLibraryVersion()), true)
+		// (in the test configuration the only set without port randomisation has no IPv6 networks)
+		if (noRand && e4 == nil && !p4.SupportRandomPort()) || (!noRand && e4 == nil && e6 == nil) {
+			out = cand
+			break
+		}
+	}
+	if out == nil {
+		out = vSecret(name)
+	}
+	vClassifySecretCache.Store(name, out)
+	return out
 }
 
 func (w *vWorld) startEcho(t testing.TB) {
@@ -244,7 +286,7 @@ func vNewWorld(t testing.TB, ws *vWorldSpec) *vWorld {
 			c2s.TransportParams = a
 		}
 		src := pb.RegistrationSource_API
-		c2sw := &pb.C2SWrapper{SharedSecret: vSecret(rs.Secret), RegistrationPayload: c2s, RegistrationSource: &src,
+		c2sw := &pb.C2SWrapper{SharedSecret: vClassifySecret(rs.Secret, rs.NilParams), RegistrationPayload: c2s, RegistrationSource: &src,
 			RegistrationAddress: net.ParseIP("198.51.100.7").To4()}
 		isV6 := w.phantoms[rs.Phantom].To4() == nil
 		if isV6 {
@@ -352,7 +394,7 @@ func (w *vWorld) clientTransport(cs *vCase) (interfaces.WrappingTransport, error
 	if ct == "" {
 		ct = rs.Transport
 	}
-	secret := vSecret(rs.Secret)
+	secret := vClassifySecret(rs.Secret, rs.NilParams)
 	keys, err := core.GenSharedKeys(uint(core.CurrentClientLibraryVersion()), secret, vTransportType(ct))
 	if err != nil {
 		return nil, err
